@@ -8,22 +8,29 @@
 EXTENDS Naturals, Sequences, FiniteSets, Json, IOUtils, TLC
 CONSTANT AllowCancelCorruption
 Rec == ndJsonDeserialize(IOEnv.TRACE)
-VARIABLES l, S, p, tainted, kf, sid
-tvars == <<l, S, p, tainted, kf, sid>>
+VARIABLES l, S, p, tainted, kf, sid, kind
+tvars == <<l, S, p, tainted, kf, sid, kind>>
 IsEv(e) == l <= Len(Rec) /\ Rec[l].ev = e /\ l' = l + 1
-TInit == l = 1 /\ S = <<>> /\ p = 1 /\ tainted = FALSE /\ kf = FALSE /\ sid = ""
-TReset == IsEv("reset") /\ S' = <<>> /\ p' = 1 /\ tainted' = FALSE /\ kf' = FALSE /\ sid' = Rec[l].sid
+TInit == l = 1 /\ S = <<>> /\ p = 1 /\ tainted = FALSE /\ kf = FALSE /\ sid = "" /\ kind = "exchange"
+\* kinds of scenario: "exchange" (both ends send and read), "hangup" (one end sends, then closes with the
+\* other end's messages unread: the kernel reports a reset behind the data), "mux" (a zlink Server serving
+\* several clients; per client the calls and the echoes it got back)
+TReset == /\ IsEv("reset") /\ S' = <<>> /\ p' = 1 /\ tainted' = FALSE /\ kf' = FALSE /\ sid' = Rec[l].sid
+          /\ kind' = IF "kind" \in DOMAIN Rec[l] THEN Rec[l].kind ELSE "exchange"
 \* connection identifiers are distinct; a listener from an inherited descriptor accepts like a bound one
 TConns == /\ IsEv("conns")
           /\ Len(Rec[l].ids) = 2 * Rec[l].n
           /\ Cardinality({Rec[l].ids[i] : i \in 1..Len(Rec[l].ids)}) = Len(Rec[l].ids)
-          /\ UNCHANGED <<S, p, tainted, kf, sid>>
-TSent == /\ IsEv("sent") /\ Rec[l].res \in {"ok", "cancelled"}
+          /\ UNCHANGED <<S, p, tainted, kf, sid, kind>>
+\* "unread": sent completely, deliberately never read by the peer (hangup scenarios)
+TSent == /\ IsEv("sent") /\ Rec[l].res \in {"ok", "cancelled"} \cup (IF kind = "hangup" THEN {"unread"} ELSE {})
          /\ S' = Append(S, [seq |-> Rec[l].seq, len |-> Rec[l].len, h |-> Rec[l].h, res |-> Rec[l].res])
-         /\ UNCHANGED <<p, tainted, kf, sid>>
+         /\ UNCHANGED <<p, tainted, kf, sid, kind>>
 CancelBefore(q) == \E j \in 1..Len(S) : j <= q /\ S[j].res = "cancelled"
 Matches(q, e) == S[q].h = e.h /\ S[q].len = e.len /\ S[q].seq = e.i
 SkippableUpTo(q) == \A j \in p..(q - 1) : S[j].res # "ok"      \* only abandoned sends may be missing
+\* how a reader may learn that nothing more comes (after a hang-up also as a connection reset)
+EndClasses == {"eof", "idle"} \cup (IF kind = "hangup" THEN {"io_err"} ELSE {})
 Explained == AllowCancelCorruption /\ CancelBefore(Len(S))
 TRcvd == /\ IsEv("rcvd")
          /\ LET e == Rec[l] IN
@@ -31,18 +38,18 @@ TRcvd == /\ IsEv("rcvd")
             ELSE IF e.cls = "msg" /\ \E q \in p..Len(S) : Matches(q, e) /\ SkippableUpTo(q)
                  THEN /\ p' = (CHOOSE q \in p..Len(S) : Matches(q, e) /\ SkippableUpTo(q)) + 1
                       /\ UNCHANGED <<tainted, kf>>
-            ELSE IF e.cls \in {"eof", "idle"} /\ SkippableUpTo(Len(S) + 1)
+            ELSE IF e.cls \in EndClasses /\ SkippableUpTo(Len(S) + 1)
                  THEN UNCHANGED <<p, tainted, kf>>                  \* nothing was lost
             ELSE \* a lost, duplicated, reordered or corrupted message
                  /\ Explained /\ tainted' = TRUE /\ kf' = TRUE /\ UNCHANGED p
-         /\ UNCHANGED <<S, sid>>
+         /\ UNCHANGED <<S, sid, kind>>
 TDirEnd == /\ IsEv("dir_end")
            /\ (kf => PrintT(<<"KNOWN", sid>>))
-           /\ S' = <<>> /\ p' = 1 /\ tainted' = FALSE /\ kf' = FALSE /\ UNCHANGED sid
+           /\ S' = <<>> /\ p' = 1 /\ tainted' = FALSE /\ kf' = FALSE /\ UNCHANGED <<sid, kind>>
 \* connections created on several threads at once: no identifier is handed out twice
 TIdBurst == IsEv("idburst") /\ Rec[l].total = Rec[l].threads * Rec[l].per /\ Rec[l].distinct = Rec[l].total
-            /\ UNCHANGED <<S, p, tainted, kf, sid>>
-TEnd == IsEv("end") /\ UNCHANGED <<S, p, tainted, kf, sid>>
+            /\ UNCHANGED <<S, p, tainted, kf, sid, kind>>
+TEnd == IsEv("end") /\ UNCHANGED <<S, p, tainted, kf, sid, kind>>
 TNext == TReset \/ TConns \/ TSent \/ TRcvd \/ TDirEnd \/ TEnd \/ TIdBurst
 TSpec == TInit /\ [][TNext]_tvars
 Accepted ==
